@@ -224,6 +224,14 @@ where
 static CLEARED_TIMER_IDS: LazyLock<Mutex<HashSet<TimerId>>> =
     LazyLock::new(|| Mutex::new(HashSet::new()));
 
+/// Verification hook (read-only): the ids currently in the cleared-timer set, in ascending order.
+#[cfg(crux_verif)]
+pub fn verif_cleared_timer_ids() -> Vec<usize> {
+    let mut ids: Vec<usize> = CLEARED_TIMER_IDS.lock().unwrap().iter().map(|id| id.0).collect();
+    ids.sort_unstable();
+    ids
+}
+
 #[cfg(test)]
 mod test {
     use super::*;
